@@ -72,11 +72,24 @@ def c13_t1(ctx, f):
 
     programs = [[], [("w", 111)], [("h", 222)], [("w", 111), ("h", 222)], [("h", 222), ("w", 111)], [("w", 222), ("h", 111)],
                 [("h", 111), ("w", 222)], [("w", 87), ("w", 348)], [("h", 348), ("h", 87)], [("w", 60), ("h", 90), ("w", 500)],
-                [("h", 500), ("w", 90), ("h", 60)]]
+                [("h", 500), ("w", 90), ("h", 60)],
+                # bounds that are close together (the same whole multiple of the document's side, which is given as ORIG below when
+                # the code asks for it), equal bounds, bounds smaller than the document
+                [("w", 333), ("h", 331)], [("h", 331), ("w", 333)], [("w", 331), ("h", 333)], [("w", 59), ("h", 58)], [("w", 58), ("h", 59)],
+                [("w", 30), ("h", 29)], [("w", 100), ("h", 100)], [("w", 7), ("h", 20)], [("w", 20), ("h", 7)], [("w", 1), ("h", 1)]]
+    ORIG = 29  # side of the parsed document (V01 with the default margin), for code that consults it before building the request
+    import re as _re
+
+    def getters(name, args, t):
+        m = _re.search(r"(?:^|::)(ScreenSize|Size)::(width|height)$", name or "")
+        if m:
+            return mk_int("u32", ORIG) if m.group(1) == "ScreenSize" else ("float", float(ORIG))
+        return None
     for prog in programs:
         inst = ".".join("fit_%s(%d)" % ("width" if k == "w" else "height", v) for k, v in prog) or "no fit request"
         F = peval.PEval(f, max_steps=600000)
         F.lenient = True       # usvg/resvg/tiny-skia calls are opaque
+        F.opaque_hook = getters
         F.record_trace = False
         r0 = F.run(dflt, [])
         if r0.kind != "ret" or r0.value == TOP:
